@@ -119,6 +119,13 @@ def _state_crosscheck(ctx, db, kind):
                         break
 
 
+def self_conv(db, name, u, v, x):
+    try:
+        return db.Convert(name, u, v, x)
+    except Exception as e:
+        return e
+
+
 def run(ctx):
     from barril.units import UnitDatabase
 
@@ -241,7 +248,9 @@ def run(ctx):
                             continue
                         ctx.ev()
                         try:
-                            got = db.Convert(a.qt, u, u, val)
+                            # the same symbol as two different str objects (a symbol read from a file, sliced, joined, ...)
+                            u_again = "".join(list(u)) if label in ("float", "list", "ndarray") else u
+                            got = db.Convert(a.qt, u, u_again, val)
                             if label == "FractionValue":
                                 same = got == val and float(got) == 3.25
                             elif label in ("ndarray", "int ndarray"):
@@ -253,6 +262,31 @@ def run(ctx):
                             continue
                         if not same:
                             ctx.violation("%s:%s:%s:identity-not-exact:%s" % (kind, a.qt, u, label), {"given": repr(val)[:120], "got": repr(got)[:120], "db": kind}, replay={"kind": kind, "qt": a.qt, "u": u, "v": u, "x": 3.7})
+            # a conversion addressed by a *category* name (also one that is not named after its quantity type, also into that
+            # category's own default unit) is the conversion of the category's quantity type
+            if ctx.shard == 0 and kind == "posc":
+                n_cat = 0
+                for c in sorted(db.IterCategories()):
+                    cqt = db.GetCategoryQuantityType(c)
+                    if cqt == "Unknown":
+                        continue
+                    du, bu = db.GetDefaultUnit(c), db.GetBaseUnit(cqt)
+                    us = [u for u in db.GetUnits(cqt) if u in aff and aff[u].exact]
+                    for u in us[:: max(1, len(us) // 6)] + [du, bu]:
+                        for v in (du, bu, us[-1]):
+                            for x in (1.0, 0.5, -3.0):
+                                ctx.ev()
+                                n_cat += 1
+                                by_cat, by_qt = self_conv(db, c, u, v, x), self_conv(db, cqt, u, v, x)
+                                if repr(by_cat) != repr(by_qt):
+                                    ctx.violation("%s:%s:%s->%s:category-name-differs-from-quantity-type-name" % (kind, cqt, u, v), {"category": c, "by_category": repr(by_cat), "by_quantity_type": repr(by_qt), "x": x, "db": kind}, replay={"kind": kind, "qt": cqt, "u": u, "v": v, "x": x})
+                                # and round trip through the category name
+                                if isinstance(by_cat, float) and u != v:
+                                    back = self_conv(db, c, v, u, by_cat)
+                                    ref_back = self_conv(db, cqt, v, u, by_cat)
+                                    if repr(back) != repr(ref_back):
+                                        ctx.violation("%s:%s:%s->%s:category-name-differs-from-quantity-type-name" % (kind, cqt, v, u), {"category": c, "by_category": repr(back), "by_quantity_type": repr(ref_back), "x": by_cat, "db": kind})
+                ctx.count("conversions addressed by category name", n_cat)
             # slope sign of every unit (strictly increasing maps)
             if ctx.shard == 0:
                 for u, a in aff.items():
